@@ -63,6 +63,12 @@ def reference_mismatch(b, il):
             v, n = item(buf)
             if not same(v, att[2]):
                 return "credential-public-key: not the CBOR item that follows the credential id"
+            try:
+                if cbor2.dumps(v) != bytes(buf[:n]):
+                    return None          # observation O1: a key item that does not re-encode to itself (here: a repeated map key) is measured by its re-encoding; C11 quantifies
+                                         # over canonically encoded CBOR, so what follows such an item has no reference reading
+            except Exception:
+                return None
             p += n
         if ext is not None:
             v, n = item(b[p:])
